@@ -354,6 +354,124 @@ theorem Inv1.mem_records {v : Vec} {es : List Elem} (h : Inv1 v es) : ∀ r ∈ 
 theorem Inv1.eok {v : Vec} {es : List Elem} (h : Inv1 v es) : ElemsOK v.ps es := by
   rcases h with h | h <;> exact h.eok
 
+/-! ### replacing the stored values by values of the same shape (element-wise move construction leaves such values) -/
+
+theorem esz_congr (ps : List Param) (a b : Elem) (h : elemCounts a = elemCounts b) : esz ps a = esz ps b := by
+  simp [esz, h]
+
+theorem canonOff_map (ps : List Param) (f : Elem → Elem) :
+    ∀ (es : List Elem) (k : Nat), (∀ e ∈ es, elemCounts (f e) = elemCounts e) → canonOff ps (es.map f) k = canonOff ps es k := by
+  intro es
+  induction es with
+  | nil => intro k _; rfl
+  | cons e es ih =>
+    intro k hf
+    cases k with
+    | zero => rfl
+    | succ k =>
+      simp only [List.map_cons, canonOff]
+      rw [esz_congr ps (f e) e (hf e (by simp)), ih k (fun x hx => hf x (by simp [hx]))]
+
+theorem nextOff_map (ps : List Param) (f : Elem → Elem) :
+    ∀ (es : List Elem), (∀ e ∈ es, elemCounts (f e) = elemCounts e) → nextOff ps (es.map f) = nextOff ps es := by
+  intro es
+  induction es with
+  | nil => intro _; rfl
+  | cons e es ih =>
+    intro hf
+    simp only [List.map_cons, nextOff]
+    rw [esz_congr ps (f e) e (hf e (by simp)), ih (fun x hx => hf x (by simp [hx]))]
+
+theorem getD_map_lt (f : Elem → Elem) (es : List Elem) (k : Nat) (hk : k < es.length) :
+    (es.map f).getD k [] = f (es.getD k []) := by
+  rw [List.getD_eq_getElem?_getD, List.getD_eq_getElem?_getD, List.getElem?_map, List.getElem?_eq_getElem hk]
+  rfl
+
+theorem rawEndOf_map (ps : List Param) (f : Elem → Elem) (es : List Elem) (hf : ∀ e ∈ es, elemCounts (f e) = elemCounts e) :
+    rawEndOf ps (es.map f) = rawEndOf ps es := by
+  unfold rawEndOf
+  cases es with
+  | nil => rfl
+  | cons e es =>
+    have hne : (e :: es) ≠ [] := by simp
+    have hne' : (e :: es).map f ≠ [] := by simp
+    rw [if_neg hne, if_neg hne', canonOff_map ps f (e :: es) _ hf, List.length_map]
+    have hk : (e :: es).length - 1 < (e :: es).length := by simp
+    rw [getD_map_lt f (e :: es) _ hk]
+    have hm : (e :: es).getD ((e :: es).length - 1) [] ∈ (e :: es) := by
+      rw [List.getD_eq_getElem?_getD, List.getElem?_eq_getElem hk]; exact List.getElem_mem hk
+    rw [esz_congr ps _ _ (hf _ hm)]
+
+theorem elemsOK_map (ps : List Param) (f : Elem → Elem) (es : List Elem) (hf : ∀ e ∈ es, elemCounts (f e) = elemCounts e)
+    (h : ElemsOK ps es) : ElemsOK ps (es.map f) := by
+  intro e' he'
+  obtain ⟨e, he, rfl⟩ := List.mem_map.mp he'
+  obtain ⟨h1, h2⟩ := h e he
+  refine ⟨?_, by rw [esz_congr ps _ _ (hf e he)]; exact h2⟩
+  unfold EOK at h1 ⊢
+  rw [hf e he]; exact h1
+
+theorem holds_map (m : Mem) (n : Nat) (rec rec' : Nat → Rec) (g : Rec → Rec) (h : Holds m n rec)
+    (hg : ∀ k, k < n → g (rec k) = rec' k) : Holds (m.map g) n rec' := by
+  intro r
+  constructor
+  · intro hr
+    obtain ⟨r0, hr0, rfl⟩ := List.mem_map.mp hr
+    obtain ⟨k, hk, rfl⟩ := (h r0).mp hr0
+    exact ⟨k, hk, hg k hk⟩
+  · rintro ⟨k, hk, rfl⟩
+    exact List.mem_map.mpr ⟨rec k, (h (rec k)).mpr ⟨k, hk, rfl⟩, hg k hk⟩
+
+/-- a vector whose stored values are replaced by values of the same field sizes represents the mapped sequence, in the same
+    layout -/
+theorem Inv1.map_values {v : Vec} {es : List Elem} (h : Inv1 v es) (f : Elem → Elem)
+    (hf : ∀ e ∈ es, elemCounts (f e) = elemCounts e) :
+    Inv1 { v with mem := v.mem.map (fun r => { r with e := f r.e }) } (es.map f) := by
+  have hmem : ∀ k, k < es.length → es.getD k [] ∈ es := by
+    intro k hk
+    rw [List.getD_eq_getElem?_getD, List.getElem?_eq_getElem hk]; exact List.getElem_mem hk
+  rcases h with h | h
+  · left
+    refine ⟨h.lok, h.notFixed, elemsOK_map v.ps f es hf h.eok, by simp [h.size_eq], ?_, ?_, ?_, h.clean⟩
+    · intro k hk
+      have hk' : k < es.length := by simpa using hk
+      show v.loc.slots k = canonOff v.ps (es.map f) k
+      rw [canonOff_map v.ps f es k hf]; exact h.slots_eq k hk'
+    · show Holds (v.mem.map _) (es.map f).length (canonRec v.ps (es.map f))
+      rw [List.length_map]
+      apply holds_map v.mem es.length (canonRec v.ps es) _ _ h.mem_eq
+      intro k hk
+      simp only [canonRec]
+      rw [canonOff_map v.ps f es k hf, getD_map_lt f es k hk, esz_congr v.ps _ _ (hf _ (hmem k hk))]
+    · show v.loc.last = rawEndOf v.ps (es.map f) ∨ (es.map f ≠ [] ∧ v.loc.last = nextOff v.ps (es.map f))
+      rw [rawEndOf_map v.ps f es hf, nextOff_map v.ps f es hf]
+      rcases h.last_eq with h1 | ⟨h1, h2⟩
+      · exact Or.inl h1
+      · exact Or.inr ⟨by simpa using h1, h2⟩
+  · right
+    refine ⟨h.lok, h.isFixed, elemsOK_map v.ps f es hf h.eok, by simp [h.count_eq], h.stride_dvd, ?_, ?_, h.clean⟩
+    · intro e' he'
+      obtain ⟨e, he, rfl⟩ := List.mem_map.mp he'
+      show esz v.ps (f e) ≤ v.loc.stride
+      rw [esz_congr v.ps _ _ (hf e he)]; exact h.fits e he
+    · show Holds (v.mem.map _) (es.map f).length (fixRec v.ps v.loc.stride (es.map f))
+      rw [List.length_map]
+      apply holds_map v.mem es.length (fixRec v.ps v.loc.stride es) _ _ h.mem_eq
+      intro k hk
+      simp only [fixRec]
+      rw [getD_map_lt f es k hk, esz_congr v.ps _ _ (hf _ (hmem k hk))]
+
+theorem movedValues_counts (ps : List Param) (e : Elem) (he : e.length = ps.length) :
+    elemCounts (movedValues ps e) = elemCounts e := by
+  unfold movedValues elemCounts
+  rw [List.map_map]
+  have : (List.length ∘ fun (x : Param × List Nat) => if x.1.ty.trivMoveCtor = true then x.2 else x.2.map (fun _ => 0)) =
+      (List.length ∘ Prod.snd) := by
+    funext x
+    simp only [Function.comp]
+    split <;> simp
+  rw [this, ← List.map_map, List.map_snd_zip (by omega)]
+
 /-- does move assignment `d = std::move(s)` take over the block (allocators equal or propagating)? -/
 def steals (w : World) (s d : Nat) : Bool :=
   match w.vecs s, w.vecs d with
@@ -361,13 +479,15 @@ def steals (w : World) (s d : Nat) : Bool :=
   | _, _ => false
 
 /-- move assignment: the target takes the source's contents.  Stealing branch (allocators equal or propagating): the
-    source is moved-from.  Element-wise branch (unequal non-propagating allocators), for trivially move-constructible
-    value types: the source keeps its elements. -/
+    source is moved-from.  Element-wise branch (unequal non-propagating allocators), **every value type**: the source
+    keeps as many elements of the same field sizes, holding moved-from values (its own values for trivially
+    move-constructible types). -/
 theorem moveAssign_refines (ps : List Param) (w : World) (A : Nat → Option AVec) (h : WInv ps w A) (s d : Nat) (es : List Elem)
     (y : AVec) (hAs : A s = some (.live es)) (hAd : A d = some y) (hsd : s ≠ d)
-    (htriv : ∀ p ∈ ps, p.ty.trivMoveCtor = true) (hok : (w.moveAssign s d).threw = false) :
+    (hok : (w.moveAssign s d).threw = false) :
     WInv ps (w.moveAssign s d)
-      (if steals w s d then aset (aset A d (some (.live es))) s (some .moved) else aset A d (some (.live es))) := by
+      (if steals w s d then aset (aset A d (some (.live es))) s (some .moved)
+       else aset (aset A d (some (.live es))) s (some (.live (es.map (movedValues ps))))) := by
   unfold World.moveAssign at hok ⊢
   simp only [hsd, if_false] at hok ⊢
   cases hvs : w.vecs s with
@@ -391,25 +511,16 @@ theorem moveAssign_refines (ps : List Param) (w : World) (A : Nat → Option AVe
           ⟨hvx.1, hvx.2.congr rfl rfl rfl (by rw [hpo, hvx.2.clean])⟩).set s vs.movedFrom .moved
             (movedFrom_inv ps vs _ hvx)).of_vecs rfl
       · simp only [hsteal, if_false] at hok ⊢
-        -- the source keeps its (trivially movable) values
-        have hmap : vs.mem.map (fun r => { r with e := movedValues vs.ps r.e }) = vs.mem := by
-          have : ∀ r ∈ vs.mem, (fun r : Rec => { r with e := movedValues vs.ps r.e }) r = r := by
-            intro r hr
-            have hre := hvx.2.mem_records r hr
-            have := (hvx.2.eok r.e hre).1
-            have hl := eok_length this
-            have := movedValues_id vs.ps (by rw [hvx.1]; exact htriv) r.e (by omega)
-            simp only [this]
-          conv => rhs; rw [← List.map_id vs.mem]
-          exact List.map_congr_left this
-        have hsrc : ({ vs with mem := vs.mem.map (fun r => { r with e := movedValues vs.ps r.e }) } : Vec) = vs := by
-          rw [hmap]
-        have hA' : aset (aset A d (some (.live es))) s (some (.live es)) = aset A d (some (.live es)) := by
-          funext i
-          simp only [aset]
-          by_cases hi : i = s
-          · subst hi; simp only [if_true, hsd, if_false]; exact hAs.symm
-          · simp only [hi, if_false]
+        -- the source keeps elements of the same shape, with moved-from values
+        have hcnt : ∀ e ∈ es, elemCounts (movedValues ps e) = elemCounts e := by
+          intro e he
+          have := (hvx.2.eok e he).1
+          rw [hvx.1] at this
+          exact movedValues_counts ps e (eok_length this)
+        have hsrc : VInv ps { vs with mem := vs.mem.map (fun r => { r with e := movedValues vs.ps r.e }) } (.live (es.map (movedValues ps))) := by
+          have h1 := hvx.2.map_values (movedValues vs.ps) (by intro e he; rw [hvx.1]; exact hcnt e he)
+          have h2 : es.map (movedValues vs.ps) = es.map (movedValues ps) := by rw [hvx.1]
+          exact ⟨hvx.1, h2 ▸ h1⟩
         by_cases hb : vs.bytes > vd.bytes
         · simp only [hb, if_true] at hok ⊢
           cases hp : allocPair w.heap w.acfg vd.fixedLoc vs.bytes vd.S vd.alloc vs.cap with
@@ -420,10 +531,9 @@ theorem moveAssign_refines (ps : List Param) (w : World) (A : Nat → Option AVe
             | some pt =>
               obtain ⟨np, t⟩ := pt
               simp only
-              rw [hsrc, ← hA']
               exact ((h.set d { (vd.setPtr (vd.ptr.moveAssign h2 w.acfg vd.S np).2.1) with tbl := t, cap := vs.cap, fs := vs.fs, mem := vs.mem, loc := vs.loc.relocated w.junk }
                 (.live es) ⟨by show vd.ps = ps; exact hvy.ps_eq,
-                  hvx.2.relocated w.junk (by show vd.ps = vs.ps; rw [hvy.ps_eq, hvx.1]) rfl rfl (by show vd.poison = false; exact hvy.clean)⟩).set s vs (.live es) hvx).of_vecs rfl
+                  hvx.2.relocated w.junk (by show vd.ps = vs.ps; rw [hvy.ps_eq, hvx.1]) rfl rfl (by show vd.poison = false; exact hvy.clean)⟩).set s _ _ hsrc).of_vecs rfl
         · simp only [hb, if_false] at hok ⊢
           cases hp : allocTable w.heap vd.fixedLoc vd.alloc vs.cap with
           | mk h2 r =>
@@ -432,10 +542,9 @@ theorem moveAssign_refines (ps : List Param) (w : World) (A : Nat → Option AVe
             | none => simp at hok
             | some t =>
               simp only
-              rw [hsrc, ← hA']
               exact ((h.set d { vd with tbl := t, cap := vs.cap, fs := vs.fs, mem := vs.mem, loc := vs.loc.relocated w.junk }
                 (.live es) ⟨by show vd.ps = ps; exact hvy.ps_eq,
-                  hvx.2.relocated w.junk (by show vd.ps = vs.ps; rw [hvy.ps_eq, hvx.1]) rfl rfl (by show vd.poison = false; exact hvy.clean)⟩).set s vs (.live es) hvx).of_vecs rfl
+                  hvx.2.relocated w.junk (by show vd.ps = vs.ps; rw [hvy.ps_eq, hvx.1]) rfl rfl (by show vd.poison = false; exact hvy.clean)⟩).set s _ _ hsrc).of_vecs rfl
 
 /-! ### all operations, every history -/
 
@@ -460,7 +569,7 @@ def WOp.apply (ps : List Param) (w : World) : WOp → World
   | .destroy k => w.destroy k
 
 /-- the same operation on the abstract map of plain sequences -/
-def WOp.aspec (w : World) (A : Nat → Option AVec) : WOp → (Nat → Option AVec)
+def WOp.aspec (ps : List Param) (w : World) (A : Nat → Option AVec) : WOp → (Nat → Option AVec)
   | .new k _ _ _ _ => aset A k (some (.live []))
   | .vop k op => match A k with | some (.live es) => aset A k (some (.live (op.spec es))) | _ => A
   | .copy s d => match A s with | some a => aset A d (some a) | none => A
@@ -469,8 +578,10 @@ def WOp.aspec (w : World) (A : Nat → Option AVec) : WOp → (Nat → Option AV
   | .moveAssign s d =>
     if s = d then A else
     match A s with
-    | some a => if steals w s d then aset (aset A d (some a)) s (some .moved) else aset A d (some a)
-    | none => A
+    | some (.live es) =>
+      if steals w s d then aset (aset A d (some (.live es))) s (some .moved)
+      else aset (aset A d (some (.live es))) s (some (.live (es.map (movedValues ps))))   -- element-wise: moved-from values stay behind
+    | _ => A
   | .swap a b => if a = b then A else match A a, A b with | some x, some y => aset (aset A a (some y)) b (some x) | _, _ => A
   | .destroy k => aset A k none
 
@@ -483,7 +594,7 @@ def WOp.Pre (ps : List Param) (w : World) (A : Nat → Option AVec) : WOp → Pr
   | .copy s d => (∃ es, A s = some (.live es)) ∧ s ≠ d
   | .move s d => A s ≠ none ∧ s ≠ d
   | .copyAssign s d => s = d ∨ ((∃ es, A s = some (.live es)) ∧ A d ≠ none)
-  | .moveAssign s d => s = d ∨ ((∃ es, A s = some (.live es)) ∧ A d ≠ none ∧ ∀ p ∈ ps, p.ty.trivMoveCtor = true)
+  | .moveAssign s d => s = d ∨ ((∃ es, A s = some (.live es)) ∧ A d ≠ none)
   | .swap a b => a = b ∨ (A a ≠ none ∧ A b ≠ none)
   | .destroy _ => True
 
@@ -500,7 +611,7 @@ theorem vop_inv1 (ps : List Param) (junk : Nat → Nat) (op : VOp) (es : List El
 /-- **one step**: whatever operation of the interface is applied to whichever vectors, the result represents what the same
     operation yields on the map of plain sequences -/
 theorem step_refines (ps : List Param) (hl : ListOK ps) (w : World) (A : Nat → Option AVec) (h : WInv ps w A) (op : WOp)
-    (hpre : op.Pre ps w A) (hok : (op.apply ps w).threw = false) : WInv ps (op.apply ps w) (op.aspec w A) := by
+    (hpre : op.Pre ps w A) (hok : (op.apply ps w).threw = false) : WInv ps (op.apply ps w) (op.aspec ps w A) := by
   cases op with
   | new k fs cap bytes alloc => exact new_refines ps w A h k fs cap bytes alloc hl hpre.2 hok
   | vop k op =>
@@ -540,13 +651,13 @@ theorem step_refines (ps : List Param) (hl : ListOK ps) (w : World) (A : Nat →
     · simp only [hsd, if_true]
       exact h.of_vecs (by simp [World.moveAssign])
     · simp only [hsd, if_false]
-      rcases hpre with hp | ⟨⟨es, hAs⟩, hAd, htriv⟩
+      rcases hpre with hp | ⟨⟨es, hAs⟩, hAd⟩
       · exact absurd hp hsd
       · cases hy : A d with
         | none => exact absurd hy hAd
         | some y =>
           simp only [hAs]
-          exact moveAssign_refines ps w A h s d es y hAs hy hsd htriv hok
+          exact moveAssign_refines ps w A h s d es y hAs hy hsd hok
   | swap a b =>
     simp only [WOp.apply, WOp.aspec]
     by_cases hab : a = b
@@ -566,12 +677,12 @@ theorem step_refines (ps : List Param) (hl : ListOK ps) (w : World) (A : Nat →
 /-- the abstract map after a history (it follows the world only to know which branch move assignment took) -/
 def arun (ps : List Param) : World → (Nat → Option AVec) → List WOp → (Nat → Option AVec)
   | _, A, [] => A
-  | w, A, op :: ops => arun ps (op.apply ps w) (op.aspec w A) ops
+  | w, A, op :: ops => arun ps (op.apply ps w) (op.aspec ps w A) ops
 
 /-- histories that respect the preconditions and in which no allocation fails (failures: C17) -/
 def WValid (ps : List Param) : World → (Nat → Option AVec) → List WOp → Prop
   | _, _, [] => True
-  | w, A, op :: ops => op.Pre ps w A ∧ (op.apply ps w).threw = false ∧ WValid ps (op.apply ps w) (op.aspec w A) ops
+  | w, A, op :: ops => op.Pre ps w A ∧ (op.apply ps w).threw = false ∧ WValid ps (op.apply ps w) (op.aspec ps w A) ops
 
 /-- **every history over any number of vectors**: construction, in-place operations, copy/move construction, copy/move
     assignment, swap and destruction, in any interleaving and of any length, keep every vector a faithful representation
@@ -769,7 +880,7 @@ theorem step_refines_fail (ps : List Param) (hl : ListOK ps) (w : World) (A : Na
 def arunF (ps : List Param) : World → (Nat → Option AVec) → List WOp → (Nat → Option AVec)
   | _, A, [] => A
   | w, A, op :: ops =>
-    arunF ps ({ (op.apply ps w) with threw := false }) (if (op.apply ps w).threw then op.aspecFail A else op.aspec w A) ops
+    arunF ps ({ (op.apply ps w) with threw := false }) (if (op.apply ps w).threw then op.aspecFail A else op.aspec ps w A) ops
 
 /-- the world after a history; the caller catches `bad_alloc` and goes on (the flag is reset before the next operation) -/
 def wrunF (ps : List Param) : World → List WOp → World
@@ -779,7 +890,7 @@ def wrunF (ps : List Param) : World → List WOp → World
 def WValidF (ps : List Param) : World → (Nat → Option AVec) → List WOp → Prop
   | _, _, [] => True
   | w, A, op :: ops => op.Pre ps w A ∧
-      WValidF ps ({ (op.apply ps w) with threw := false }) (if (op.apply ps w).threw then op.aspecFail A else op.aspec w A) ops
+      WValidF ps ({ (op.apply ps w) with threw := false }) (if (op.apply ps w).threw then op.aspecFail A else op.aspec ps w A) ops
 
 /-- **every history, allocation failures included**: whichever allocations throw `bad_alloc`, and however the caller goes
     on afterwards, every vector keeps representing the plain sequence of the abstract map, in which a failed operation
